@@ -243,12 +243,17 @@ def leaf_boundary_cases(ctx, every=1):
 def presence_grid_cases(ctx, every=1):
     """Every presence pattern of a three-member SEQUENCE and SET: each member mandatory, OPTIONAL or DEFAULT, and
     for each pattern every combination of present / absent / equal-to-default values.  What random types give only
-    by luck: a DEFAULT omitted in front of a present OPTIONAL, at the first, middle and last position."""
+    by luck: a DEFAULT omitted in front of a present OPTIONAL, at the first, middle and last position; the same with
+    an untagged CHOICE as one of the members (reached while standing on an OPTIONAL/DEFAULT position)."""
     import itertools
-    members = [(('int',), ('i', 7), ('i', 1)), (('octs',), ('o', b'ab'), ('o', b'd')), (('bool',), ('b', True), ('b', False))]
+    members0 = [(('int',), ('i', 7), ('i', 1)), (('octs',), ('o', b'ab'), ('o', b'd')), (('bool',), ('b', True), ('b', False))]
+    ch = (('choice', [('null',), ('oid',)]), ('ch', 1, ('oid', (1, 2, 3))), None)
     out, i = [], 0
-    for kind in ('seq', 'set'):
+    # the plain family, then the same with an untagged CHOICE (mandatory or OPTIONAL) at the first, middle, last position
+    for kind, members in [(k, m) for k in ('seq', 'set') for m in [members0] + [members0[:j] + [ch] + members0[j + 1:] for j in range(3)]]:
         for pres in itertools.product(('req', 'opt', 'def'), repeat=3):
+            if any(p == 'def' and m[2] is None for p, m in zip(pres, members)):
+                continue
             fields = []
             for p, (t, val, dflt) in zip(pres, members):
                 fields.append(((('def', dflt) if p == 'def' else p), t))
